@@ -150,7 +150,7 @@ Qed.
    the statement: [separated] is false when the nested list is among the
    mutated handles. *)
 Lemma nested_shared_example :
-  let s0 := [PyDict [(Ak "a", VRef 1)]; PyList [A "x"]] in
+  let s0 := [PyDict false [(Ak "a", VRef 1)]; PyList [A "x"]] in
   let args := rel_args (VRef 0) VNone EMPTY_BYTES in
   separated 6 s0 [1] Ctor (bs "Release") args = false /\
   separated 6 s0 [0] Ctor (bs "Release") args = true /\
@@ -205,8 +205,8 @@ Definition rev_args (meta : pyval) : list pyval :=
 (* cell 0: the _data of an already frozen mapping {"extra_headers": ((k, v),), "a": "b"};
    cell 1: a dict the caller owns *)
 Definition cp_store : store :=
-  [ PyDict [(XH_KEY, VTuple [VTuple [VAtom (1%N :: bs "k"); VAtom (1%N :: bs "v")]]); (Ak "a", A "b")];
-    PyDict [(Ak "x", A "y")] ].
+  [ PyDict false [(XH_KEY, VTuple [VTuple [VAtom (1%N :: bs "k"); VAtom (1%N :: bs "v")]]); (Ak "a", A "b")];
+    PyDict false [(Ak "x", A "y")] ].
 
 Definition cp_ops : list op :=
   [ OConstruct Ctor (bs "Revision") (rev_args (VIDict 0));       (* post-init calls copy_pop on the caller's mapping *)
@@ -248,3 +248,50 @@ Lemma copy_pop_refuted_inplace :
   | _ => False
   end.
 Proof. vm_compute. repeat split; try reflexivity; discriminate. Qed.
+
+(* ------------------------------------------------------------------ *)
+(* read operations *)
+From SWH.proofs Require Import FrozenReadProofs.
+
+(* cell 0: a collections.defaultdict (a dict subclass whose __missing__ inserts) the caller passes *)
+Definition dd_store : store := [PyDict true [(Ak "k1", A "v1")]].
+Definition dd_reads : list (option bytes * readkind) :=
+  [ (Some (bs "branches"), RdContains (Ak "missing"));     (* "missing" in snapshot.branches *)
+    (Some (bs "branches"), RdGet (Ak "missing2"));
+    (Some (bs "branches"), RdGetItem (Ak "missing3"));
+    (Some (bs "branches"), RdIter); (None, RdToDict); (None, RdHash); (None, RdEq) ].
+
+Lemma reads_are_pure_satisfiable :
+  Forall (plain dd_store) ex_args /\
+  match construct ex_Hid New 5 Ctor (bs "Snapshot") dd_store ex_args with
+  | Ok (o, s1) => run_reads s1 o dd_reads = s1 /\ length s1 = 2 /\
+                  do_read s1 o (Some (bs "branches")) (RdGetItem (Ak "missing")) = (s1, Some EKeyError) /\
+                  do_read s1 o (Some (bs "branches")) (RdGetItem (Ak "k1")) = (s1, None)
+  | Err _ => False
+  end.
+Proof. split; [repeat constructor|]. vm_compute. repeat split; reflexivity. Qed.
+
+(* the mutant __init__ copying with data.copy(): the stored dict of Snapshot(branches=defaultdict)
+   is still a defaultdict; `k in snapshot.branches` on a missing key inserts it: the store, the
+   content, the hash key change and the id goes stale.  Same for a bare ImmutableDict(defaultdict)
+   and m.get(k).  With the current code: nothing changes. *)
+Lemma reads_pure_refuted_subclass_copy :
+  Forall (plain dd_store) ex_args /\
+  match construct ex_Hid SubclassCopy 5 Ctor (bs "Snapshot") dd_store ex_args with
+  | Ok (o, s1) =>
+      let s2 := run_reads s1 o [(Some (bs "branches"), RdContains (Ak "missing"))] in
+      s2 <> s1 /\ observe ex_Hid ex_Hpy 5 s2 o <> observe ex_Hid ex_Hpy 5 s1 o /\
+      id_ok ex_Hid (resolve 5 s1 o) = true /\ id_ok ex_Hid (resolve 5 s2 o) = false
+  | Err _ => False
+  end /\
+  match construct ex_Hid SubclassCopy 5 Ctor IDICT dd_store [VRef 0] with
+  | Ok (o, s1) =>
+      let s2 := run_reads s1 o [(None, RdGet (Ak "missing"))] in
+      observe ex_Hid ex_Hpy 5 s2 o <> observe ex_Hid ex_Hpy 5 s1 o
+  | Err _ => False
+  end /\
+  match construct ex_Hid New 5 Ctor (bs "Snapshot") dd_store ex_args with
+  | Ok (o, s1) => run_reads s1 o [(Some (bs "branches"), RdContains (Ak "missing"))] = s1
+  | Err _ => False
+  end.
+Proof. split; [repeat constructor|]. vm_compute. repeat split; try reflexivity; discriminate. Qed.
